@@ -177,6 +177,9 @@ func (v *JV) MapLone() *JV {
 	return v
 }
 
+// MapLone16 replaces lone surrogates by U+FFFD.
+func MapLone16(u []uint16) []uint16 { return mapLone(u) }
+
 func mapLone(u []uint16) []uint16 {
 	out := make([]uint16, len(u))
 	for i := 0; i < len(u); i++ {
